@@ -529,6 +529,102 @@ func firstLine(s string) string {
 	return s
 }
 
+// updatePairs: "can be applied" also when the object replaces another accepted one on a running system. For every
+// ordered pair (X, Y) of accepted flow-control sections: the limiter server applies X, two instances report under X,
+// the server applies Y, one instance reports (and acquires) under Y; the gateway syncs X then Y and probes every
+// schema. Nothing may panic or fail.
+func updatePairs(c *ev.Check, fcs []variant, lo, hi int) {
+	for _, vx := range fcs[lo:hi] {
+		for _, vy := range fcs {
+			x, y := base(), base()
+			vx.mut(x)
+			vy.mut(y)
+			c.Add("update_pairs", 1)
+			label := "flowControl: " + vx.label + " -> " + vy.label
+			where, what := "", ""
+			report := func(lr *limrig.Rig, o *proxyv1alpha1.UpstreamCluster, inst string, acquire bool) {
+				for _, s := range o.Spec.FlowControl.Schemas {
+					if s.GlobalMaxRequestsInflight == nil && s.GlobalTokenBucket == nil {
+						continue
+					}
+					typ := proxyv1alpha1.MaxRequestsInflight
+					if s.TokenBucket != nil {
+						typ = proxyv1alpha1.TokenBucket
+					}
+					_ = lr.L.Heartbeat(inst)
+					var err error
+					if p := kit.Try(func() {
+						rep := limrig.Report(o.Name, inst, s.Name, typ, s.Strategy, 0, 0, 1, 50)
+						rep.Spec.LimitItemConfigurations[0].LimitItemDetail = proxyv1alpha1.LimitItemDetail{}
+						_, err = lr.L.UpdateRateLimitConditionStatus(o.Name, rep)
+					}); p != "" && where == "" {
+						where, what = "limiter-report-after-update-panic", p
+					} else if err != nil && where == "" {
+						where, what = "limiter-report-after-update-error", err.Error()
+					}
+					if !acquire {
+						continue
+					}
+					if p := kit.Try(func() {
+						_, err = lr.L.DoAcquire(o.Name, limrig.Acquire(o.Name, inst, s.Name, time.Now().UnixNano(), 1))
+					}); p != "" && where == "" {
+						where, what = "limiter-acquire-after-update-panic", p
+					} else if err != nil && where == "" {
+						where, what = "limiter-acquire-after-update-error", err.Error()
+					}
+				}
+			}
+			lr := limrig.New(1, "local")
+			lr.Gain(0)
+			var err error
+			if p := kit.Try(func() { err = lr.ApplyCluster(x.DeepCopy()) }); p != "" || err != nil {
+				continue // (X alone is judged by the single-object enumeration)
+			}
+			report(lr, x, "gw1", true)
+			report(lr, x, "gw2", true)
+			if where != "" {
+				continue // (likewise)
+			}
+			if p := kit.Try(func() { err = lr.ApplyCluster(y.DeepCopy()) }); p != "" {
+				where, what = "limiter-handler-update-panic", p
+			} else if err != nil {
+				where, what = "limiter-handler-update-error", err.Error()
+			}
+			if where == "" {
+				report(lr, y, "gw1", true)
+			}
+			if where == "" {
+				report(lr, y, "gw2", true)
+			}
+			// gateway
+			if where == "" {
+				var ci *clusters.ClusterInfo
+				if p := kit.Try(func() { ci, err = clusters.CreateClusterInfo(x.DeepCopy(), kit.NoopCheck, "", nil) }); p == "" && err == nil {
+					if p := kit.Try(func() { err = ci.Sync(y.DeepCopy()) }); p != "" {
+						where, what = "gateway-update-panic", p
+					} else if err != nil {
+						where, what = "gateway-update-error", err.Error()
+					}
+					for _, s := range y.Spec.FlowControl.Schemas {
+						if p := kit.Try(func() {
+							fc := ci.GetFlowSchema(s.Name)
+							if fc.TryAcquire() {
+								fc.Release()
+							}
+						}); p != "" && where == "" {
+							where, what = "gateway-flowcontrol-after-update-panic", p
+						}
+					}
+					ci.Stop()
+				}
+			}
+			if where != "" {
+				c.Violation("accepted-but-not-applicable-as-update/"+where, fmt.Sprintf("validation accepts both objects of [%s] but applying the second over the first fails (%s): %s", label, where, firstLine(what)), map[string]interface{}{"variant": label, "from": x, "to": y})
+			}
+		}
+	}
+}
+
 func main() {
 	c := ev.Start("C16", "exploration")
 	c.Assume = []string{
@@ -600,6 +696,23 @@ func main() {
 				}
 			}})
 		}
+	}
+	// accepted flow-control sections, every ordered pair as an update
+	var fcs []variant
+	for _, v := range bySection["flowControl"] {
+		o := base()
+		v.mut(o)
+		if ok, p := accepted(o); ok && p == "" {
+			fcs = append(fcs, v)
+		}
+	}
+	c.Note("accepted_flow_control_sections", len(fcs))
+	for i := 0; i < len(fcs); i += 4 {
+		lo, hi := i, i+4
+		if hi > len(fcs) {
+			hi = len(fcs)
+		}
+		tasks = append(tasks, ev.Task{Name: fmt.Sprintf("update-pairs-%d", lo), Run: func() { updatePairs(c, fcs, lo, hi) }})
 	}
 	c.RunTasks(tasks)
 	c.Finish(map[string]interface{}{
